@@ -86,14 +86,17 @@ func (f *Fragment) AddChild(b Box) {
 
 // AddEmsg inserts an emsg box at the end of a sequence of emsg boxes at the start of the fragment.
 func (f *Fragment) AddEmsg(emsg *EmsgBox) {
-	prevEmsg := -1
+	newIdx := 0
 	for i, c := range f.Children {
+		if _, ok := c.(*MoofBox); ok {
+			break // emsg boxes after the moof (behind the mdat) belong to the next fragment
+		}
 		if _, ok := c.(*EmsgBox); ok {
-			prevEmsg = i
+			newIdx = i + 1
 		}
 	}
-	newIdx := prevEmsg + 1
-	f.Children = append(f.Children[:newIdx+1], f.Children[newIdx:]...)
+	f.Children = append(f.Children, nil)
+	copy(f.Children[newIdx+1:], f.Children[newIdx:])
 	f.Children[newIdx] = emsg
 }
 
